@@ -429,6 +429,21 @@ def _loader_errors_typed():
     return "false"
 
 
+@fact("ser_stateless_dispatch", "bool", "false")
+def _ser_stateless_dispatch():
+    """_Serializer keeps no per-object state: __init__ binds only the output list / write function, _save dispatches on
+    type(obj) alone (an object reachable twice is simply written twice)"""
+    f = find("gateway_base.py", "_Serializer.__init__")
+    targets = sorted({_src(t) for n in ast.walk(f) if isinstance(n, (ast.Assign, ast.AnnAssign)) for t in (n.targets if isinstance(n, ast.Assign) else [n.target])})
+    ok = targets == ["self._streamlist", "self._write", "write"]
+    sv = _src(find("gateway_base.py", "_Serializer._save"))
+    ok = ok and "tp = type(obj)" in sv and "dispatch = self._dispatch[tp]" in sv and "methodname = 'save_' + tp.__name__" in sv and "dispatch(self, obj)" in sv
+    ok = ok and "raise DumpError(" in sv and sv.count("self.") <= 4
+    di = _src(find("gateway_base.py", "dumps_internal"))
+    ok = ok and "return _Serializer().save(obj)" in di
+    return "true" if ok else "false"
+
+
 @fact("send_dumps_before_write", "bool", "false")
 def _send_dumps_before_write():
     """Channel.send serialises the item as an argument of the _send call (nothing is written before dumps succeeded)"""
@@ -662,6 +677,10 @@ def _chan_receive_shape_ok():
     ok = ok and t[3] == "if x is ENDMARKER:\n    itemqueue.put(x)\n    raise self._getremoteerror() or EOFError()\nelse:\n    return x"
     g = _src(find("gateway_base.py", "Channel._getremoteerror"))
     ok = ok and "self._remoteerrors.pop(0)" in g and "except IndexError" in g
+    # iteration is receive() with EOFError turned into StopIteration (so it re-puts the ENDMARKER like receive)
+    nx = [_src(n) for n in _body_nodoc(find("gateway_base.py", "Channel.next"))]
+    ok = ok and nx == ["try:\n    return self.receive()\nexcept EOFError:\n    raise StopIteration from None"]
+    ok = ok and "__next__ = next" in _src(find("gateway_base.py", "Channel")) and [_src(n) for n in _body_nodoc(find("gateway_base.py", "Channel.__iter__"))] == ["return self"]
     return "true" if ok else "false"
 
 
@@ -682,7 +701,7 @@ def _chan_local_close_order_ok():
     if t != want:
         return "false"
     n = _src(find("gateway_base.py", "ChannelFactory._no_longer_opened"))
-    ok = "self._channels.pop(id, None)" in n and "item = self._callbacks.pop(id, None)" in n and "if endmarker is not NO_ENDMARKER_WANTED:\n            callback(endmarker)" in n
+    ok = "self._channels.pop(id, None)" in n and "item = self._callbacks.pop(id, None)" in n and "if endmarker is not NO_ENDMARKER_WANTED:\n            try:\n                callback(endmarker)\n            except Exception as exc:" in n
     return "true" if ok else "false"
 
 
@@ -699,7 +718,8 @@ def _chan_local_receive_shape_ok():
     h = _src(tr.handlers[0].body)
     ok = ok and h == "queue = channel._items if channel is not None else None\nif queue is None:\n    pass\nelse:\n    item = loads_internal(data, channel)\n    queue.put(item)"
     e = _src(tr.orelse)
-    ok = ok and e.startswith("try:\n    data = loads_internal(data, channel, strconfig)\n    callback(data)\nexcept Exception as exc:")
+    # with the Channel object gone the gateway's factory is used (channels inside the item), the captured strconfig applied
+    ok = ok and e.startswith("try:\n    if channel is None:\n        unserializer = Unserializer(BytesIO(data), self.gateway)\n        unserializer.py2str_as_py3str, unserializer.py3str_as_py2str = strconfig\n        data = unserializer.load()\n    else:\n        data = loads_internal(data, channel, strconfig)\n    callback(data)\nexcept Exception as exc:")
     return "true" if ok else "false"
 
 
@@ -1595,8 +1615,14 @@ def main() -> int:
         lines.append(f"Definition {name} : {typ} := {term}.")
     lines.append("Definition ids_cfg : Ids.icfg := {| Ids.alloc_locked := ids_alloc_locked; Ids.adopt_keeps_count := ids_adopt_keeps_count; Ids.startA := ids_start_initiator; Ids.startB := ids_start_worker; Ids.step := ids_step |}.")
     lines.append("Definition group_cfg : GroupIds.gcfg := {| GroupIds.alloc_read_locked := grp_alloc_read_locked; GroupIds.explicit_checked := grp_explicit_checked; GroupIds.register_atomic := grp_register_atomic |}.")
+    js["ranges"] = {}
     for fn, q in DIGESTS:
         js["digests"][f"{fn}:{q}"] = digest(fn, q)
+        try:
+            node = find(fn, q)
+            js["ranges"][f"{fn}:{q}"] = [node.lineno, node.end_lineno]
+        except LookupError:
+            pass
     text = "\n".join(lines) + "\n"
     js["facts_digest"] = hashlib.sha256(text.encode()).hexdigest()[:16]
     os.makedirs(os.path.dirname(OUT_V), exist_ok=True)
